@@ -117,25 +117,26 @@ type runnerFn func(t *testing.T, sc *Scenario, raw []byte)
 var runners = map[string]runnerFn{}
 
 type Scenario struct {
-	Sc     int    `json:"sc"`
-	Fam    string `json:"fam"`
-	Runner string `json:"runner"`
-	Topo   string `json:"topo"` // direct (default) | proxy | demux | pd
-	Ser    bool   `json:"ser"`
-	Manual bool   `json:"manual"` // deliveries released by dlv steps
-	Cap    int    `json:"cap"`    // > 0: bounded transport, a Write blocks while Cap envelopes are unread in that direction
-	NCli   int    `json:"ncli"`
-	RawSrv bool   `json:"rawsrv"` // no real server: raw peer injects s2c
-	RawCli bool   `json:"rawcli"` // no real client: raw peer injects c2s
-	Srv    string `json:"srv"`    // server name (default "srv")
-	Dst    string `json:"dst"`    // client's destination (default = Srv)
-	CStats int    `json:"cstats"`
-	SIcpt  int    `json:"sicpt"` // server built with that many pass-through unary and stream interceptors (1: single, >1: chained)
-	CIcpt  int    `json:"cicpt"` // the same for the client connection
-	SStats int    `json:"sstats"`
-	NoTok  bool   `json:"notoken"` // calls carry no call token (strictly sequential scenarios only): see anonTab
-	Anon   bool   `json:"anon"`    // README: "If names are not desirable ... an empty string for the destination and server names"
-	Steps  []Step `json:"steps"`
+	Sc        int    `json:"sc"`
+	Fam       string `json:"fam"`
+	Runner    string `json:"runner"`
+	Topo      string `json:"topo"` // direct (default) | proxy | demux | pd
+	Ser       bool   `json:"ser"`
+	Manual    bool   `json:"manual"` // deliveries released by dlv steps
+	Cap       int    `json:"cap"`    // > 0: bounded transport, a Write blocks while Cap envelopes are unread in that direction
+	NCli      int    `json:"ncli"`
+	RawSrv    bool   `json:"rawsrv"` // no real server: raw peer injects s2c
+	RawCli    bool   `json:"rawcli"` // no real client: raw peer injects c2s
+	NoSrvName bool   `json:"nosrvname"`
+	Srv       string `json:"srv"` // server name (default "srv")
+	Dst       string `json:"dst"` // client's destination (default = Srv)
+	CStats    int    `json:"cstats"`
+	SIcpt     int    `json:"sicpt"` // server built with that many pass-through unary and stream interceptors (1: single, >1: chained)
+	CIcpt     int    `json:"cicpt"` // the same for the client connection
+	SStats    int    `json:"sstats"`
+	NoTok     bool   `json:"notoken"` // calls carry no call token (strictly sequential scenarios only): see anonTab
+	Anon      bool   `json:"anon"`    // README: "If names are not desirable ... an empty string for the destination and server names"
+	Steps     []Step `json:"steps"`
 }
 
 // ---- gates -----------------------------------------------------------------
@@ -481,6 +482,9 @@ func (rt *runtimeS) defaults() {
 	if sc.Anon {
 		sc.Srv, sc.Dst = "", ""
 	}
+	if sc.NoSrvName { // a server without a name next to clients that name a destination
+		sc.Srv = ""
+	}
 }
 
 func (rt *runtimeS) setup() {
@@ -490,6 +494,12 @@ func (rt *runtimeS) setup() {
 		opts = append(opts, rt.serverObservers()...)
 		opts = append(opts, passThroughServerInterceptors(sc.SIcpt)...)
 		rt.srv = goat.NewServer(sc.Srv, opts...)
+		rt.w.stopSrv = func() {
+			e := ev("Fault")
+			e.K = "stop"
+			tr.emit(e)
+			rt.srv.Stop()
+		}
 		rt.srv.RegisterService(rt.w.serviceDesc(), nil)
 	}
 	switch sc.Topo {
@@ -764,6 +774,9 @@ func runScenario(t *testing.T, sc *Scenario) {
 		b.K, b.X = sc.Fam, sc.Topo
 		b.N = sc.NCli
 		b.Msg, b.Pay = sc.Srv, "cli1"
+		if sc.Dst != sc.Srv {
+			b.Md = []KV{{K: "dst", V: []string{sc.Dst}}} // the clients name another destination than the server's name
+		}
 		if sc.RawCli {
 			b.Res = "rawcli"
 		} else if sc.RawSrv {
